@@ -14,6 +14,8 @@
 (* One action per operation: caller = n x go, n x receive; worker = the    *)
 (* operations of its function, then (v_i written) the send on errChan.     *)
 (*                                                                         *)
+(* (cfg.ring: a token goes round f0 -> f1 -> ... -> f(n-1) -> f0 over the   *)
+(* unbuffered channels 0#0..0#(n-1): f0 waits for the LAST function.)      *)
 (* Driver ("do", cfg.fail = error code per function, 0 = nil; cfg.rv =     *)
 (* the functions rendezvous: f0 receives one token from each other         *)
 (* function on the unbuffered channel 0#0, so every function waits for     *)
@@ -33,8 +35,14 @@ DoWorker(idx, ops, ech, code) ==
   [role |-> "doworker", mk |-> {}, mkw |-> {}, idx |-> idx, ops |-> ops, j |-> 1, ech |-> ech, code |-> code,
    wrote |-> ops = <<>>, sent |-> FALSE]
 
+\* star (c.rv): f0 receives a token from every later function on 0#0.
+\* ring (c.ring): channels 0#0..0#(n-1); f0 sends on 0#0 then waits for f(n-1) on 0#(n-1);
+\* f_i waits for f(i-1) on 0#(i-1) then sends on 0#i.
 FnOps(c, idx) ==
-  IF ~c.rv THEN <<>>
+  IF c.ring THEN
+    IF idx = 0 THEN <<PSend("0#0", IV(0)), PRecv(Cid("0", DoN(c) - 1))>>
+    ELSE <<PRecv(Cid("0", idx - 1)), PSend(Cid("0", idx), IV(idx))>>
+  ELSE IF ~c.rv THEN <<>>
   ELSE IF idx = 0 THEN [k \in 1..(DoN(c) - 1) |-> PRecv("0#0")]
   ELSE <<PSend("0#0", IV(idx))>>
 
@@ -63,7 +71,8 @@ DoAdv(p, r) == LET g == gs[p] IN
     IF g.j <= Len(g.ops) THEN [g EXCEPT !.j = @ + 1, !.wrote = (g.j = Len(g.ops))]
     ELSE [g EXCEPT !.sent = TRUE]
 
-DoInitCh(c) == [x \in {"0#0", "0.0#0"} |-> Chan(0, x = "0#0" /\ c.rv)]
+DoInitCh(c) == [x \in {Cid("0", k) : k \in 0..(DoN(c) - 1)} \cup {"0.0#0"} |->
+                 Chan(0, (x = "0#0" /\ c.rv) \/ (x # "0.0#0" /\ c.ring))]
 DoInitWg(c) == [x \in {} |-> WG(FALSE)]
 DoInitGs(c) == LET n == DoN(c) IN
   [x \in {"0", "0.0"} \cup {Gid("0.0", i) : i \in 0..(n - 1)} |->
